@@ -29,6 +29,9 @@ type TOp struct {
 
 type TimerCase struct {
 	Ops []TOp `json:"ops"`
+	// Shutdown: at the end the timers are shut down as a whole instead
+	// of being cancelled one by one
+	Shutdown bool `json:"shutdown,omitempty"`
 }
 
 var timerIds = []string{"a", "b", "c"}
@@ -81,6 +84,7 @@ func genTimers(t *rapid.T) TimerCase {
 	for i := rapid.IntRange(1, 10).Draw(t, "n"); i > 0; i-- {
 		c.Ops = append(c.Ops, genTOp(t, fmt.Sprintf("o%d", i), 0))
 	}
+	c.Shutdown = rapid.IntRange(0, 3).Draw(t, "shutdown") == 0
 	return c
 }
 
@@ -106,21 +110,22 @@ type timerHarness struct {
 	// requester and, concurrently, by firing handlers) atomic with
 	// respect to each other, so that "the previous timer with this id"
 	// is known exactly when a request is refused
-	opMu     sync.Mutex
-	mu       sync.Mutex
-	ts       *Timers
-	incs     []*incarnation
-	live     map[string]*incarnation // latest accepted incarnation per id
-	bad      string
-	ctx      context.Context
-	ctxs     [3]context.Context
-	cancels  [3]context.CancelFunc
-	drops    int
-	v        *ev.Verdict
-	hreq     int
-	handlers int // firing handlers currently running
-	idReuse  int
-	nearDue  int
+	opMu      sync.Mutex
+	mu        sync.Mutex
+	ts        *Timers
+	incs      []*incarnation
+	live      map[string]*incarnation // latest accepted incarnation per id
+	bad       string
+	ctx       context.Context
+	ctxs      [3]context.Context
+	cancels   [3]context.CancelFunc
+	drops     int
+	v         *ev.Verdict
+	hreq      int
+	handlers  int // firing handlers currently running
+	idReuse   int
+	shutdowns int
+	nearDue   int
 }
 
 // fail records the first problem; callers hold h.mu.
@@ -585,6 +590,35 @@ func checkTimers(c TimerCase) (v ev.Verdict) {
 		}
 		h.mu.Unlock()
 		h.checkPending("at quiescence")
+		if c.Shutdown {
+			// shutting the timers down cancels what is pending: the
+			// pending set empties and nothing fires any more
+			h.opMu.Lock()
+			h.mu.Lock()
+			for _, inc := range long {
+				if time.Until(inc.due) > 500*time.Millisecond {
+					inc.cancelled = true
+				}
+			}
+			h.mu.Unlock()
+			h.ts.Shutdown()
+			for deadline := time.Now().Add(3 * time.Second); ; time.Sleep(time.Millisecond) {
+				p, _ := h.pending()
+				if len(p) == 0 {
+					break
+				}
+				if time.Now().After(deadline) {
+					h.failLocked("3 s after Shutdown the pending set is still %v", p)
+					break
+				}
+			}
+			h.opMu.Unlock()
+			time.Sleep(5 * time.Millisecond)
+			long = nil
+			h.mu.Lock()
+			h.shutdowns++
+			h.mu.Unlock()
+		}
 		for _, inc := range long {
 			far := time.Until(inc.due) > 500*time.Millisecond
 			h.cancel(inc.id, nil)
@@ -628,6 +662,9 @@ func checkTimers(c TimerCase) (v ev.Verdict) {
 	v.NonTrivial = h.hreq > 0 || h.idReuse > 0 || h.nearDue > 0 || h.drops > 0
 	if h.drops > 0 {
 		v.Class("request-context-ended")
+	}
+	if h.shutdowns > 0 {
+		v.Class("shutdown")
 	}
 	if h.hreq > 0 {
 		v.Class("requests-inside-handler")
